@@ -225,6 +225,19 @@ pub struct Suite {
     pub must_hit: &'static [&'static str],
 }
 
+impl Suite {
+    /// shrinking budget: cheap function-level cases can afford many iterations, worlds cannot
+    pub fn shrink_iters(&self) -> u32 {
+        if self.op_len == 0 && self.head_len <= 64 {
+            20_000
+        } else if self.name == "decimals_updates" || self.name == "pagination" || self.name == "caller_matrix" {
+            400
+        } else {
+            2_500
+        }
+    }
+}
+
 #[derive(Default, Debug)]
 pub struct SuiteStats {
     pub evaluations: u64,
@@ -344,7 +357,7 @@ fn run_worker(
     let cfg = Config {
         cases: cases as u32,
         failure_persistence: None,
-        max_shrink_iters: 4_000,
+        max_shrink_iters: suite.shrink_iters(),
         max_local_rejects: 1,
         max_global_rejects: 1,
         verbose: 0,
